@@ -379,7 +379,12 @@ func (g *dgen) body(self fnInfo, recv string, recvPtr bool, canRecurse bool) ([]
 				m := ms[g.pick("bm", len(ms))]
 				recvExpr := s + "{}"
 				v := fmt.Sprintf("mv%d", k)
-				if m.ptr {
+				if m.ptr && g.chance("bmimplicit", 40) {
+					// pointer-receiver method called on an addressable value: Go takes the address
+					// implicitly (what the call MEANS is C02's business, known finding implicitReceiver;
+					// the dependency on the method is the same; seeded change C04-9)
+					lines = append(lines, "var "+v+" "+s)
+				} else if m.ptr {
 					lines = append(lines, v+" := &"+s+"{}")
 				} else {
 					lines = append(lines, v+" := "+recvExpr)
